@@ -17,8 +17,10 @@ from . import common, tlc
 PID = 'C06'
 
 
-def run_ismags(G, H, mode, sym, cache=None):
-    """G, H: dict(nodes=[(id, colour)], edges=[(a, b, colour)]). Returns list of mappings [[g, h], ...] or raises."""
+def run_ismags(G, H, mode, sym, cache=None, pre=None):
+    """G, H: dict(nodes=[(id, colour)], edges=[(a, b, colour)]). Returns list of mappings [[g, h], ...] or raises.
+    pre: another query made on the SAME matcher object first ('iso' = all isomorphisms, 'sub' = subgraph_is_isomorphic,
+    'lcs' = largest common subgraph); its result is discarded - a matcher answers every query as a fresh one would."""
     import networkx as nx
     from vermouth.ismags import ISMAGS
 
@@ -35,6 +37,12 @@ def run_ismags(G, H, mode, sym, cache=None):
     nm = (lambda a, b: a['c'] == b['c']) if coloured_nodes or G.get('force_match') else None
     em = (lambda a, b: a['c'] == b['c']) if coloured_edges or G.get('force_match') else None
     ism = ISMAGS(g, h, node_match=nm, edge_match=em, cache=cache)
+    if pre == 'iso':
+        list(ism.find_isomorphisms(symmetry=not sym))
+    elif pre == 'sub':
+        ism.subgraph_is_isomorphic()
+    elif pre == 'lcs':
+        list(ism.largest_common_subgraph(symmetry=sym))
     it = ism.find_isomorphisms(symmetry=sym) if mode == 'iso' else ism.largest_common_subgraph(symmetry=sym)
     return [sorted([gn, hn] for gn, hn in m.items()) for m in it]
 
@@ -155,6 +163,37 @@ def structured(rng, count):
         yield relabel(G, mg), relabel(H, mh), 'structured:%s-in-%s' % (fh, fg)
 
 
+def coloured_rings(rng):
+    """Rings of 4..8 atoms with PERIODIC edge / node colourings (alternating bond orders, every third atom different, ...):
+    the colouring cuts the symmetry group of the ring down to a proper subgroup. Pattern in itself and in itself plus a tail."""
+    for n in range(4, 9):
+        for what in ('edge', 'node'):
+            for period, phase in ((2, 0), (3, 0), (4, 0), (n, 1)):
+                if period > n:
+                    continue
+                hn, he = cycle(n)
+                col = lambda i: 1 if i % period == phase % period else 0      # noqa: E731
+                ecol = {e: col(i) for i, e in enumerate(he)} if what == 'edge' else None
+                ncol = {x: col(i) for i, x in enumerate(hn)} if what == 'node' else None
+                H = mk(hn, he, ncol, ecol)
+                H['force_match'] = True
+                for tail in (0, 1):
+                    gn, ge = list(hn), list(he)
+                    gcol_e, gcol_n = dict(ecol or {}), dict(ncol or {})
+                    if tail:
+                        gn = gn + [n + 1]
+                        ge = ge + [(1, n + 1)]
+                        gcol_e[(1, n + 1)] = 0
+                        gcol_n[n + 1] = 0
+                    G = mk(gn, ge, gcol_n if what == 'node' else None, gcol_e if what == 'edge' else None)
+                    G['force_match'] = True
+                    mh = dict(zip(hn, rng.sample(range(1, 60), len(hn))))
+                    mg = dict(zip(gn, rng.sample(range(100, 190), len(gn))))
+                    Gr, Hr = relabel(G, mg), relabel(H, mh)
+                    Gr['force_match'] = Hr['force_match'] = True
+                    yield Gr, Hr, 'ring%d-%s-period%d%s' % (n, what, period, '+tail' if tail else '')
+
+
 def _run_events(args):
     cases, seed = args
     out = []
@@ -171,6 +210,15 @@ def _run_events(args):
                 except Exception as exc:      # noqa
                     Y, err = [], repr(exc)[:200]
                 out.append({'G': G, 'H': H, 'mode': mode, 'sym': sym, 'Y': Y, 'fam': fam, 'err': err})
+        if ci % 2 == 0:
+            # query sequences on ONE matcher object: the earlier query must not change the later answer
+            for pre, mode, sym in (('iso', 'lcs', ci % 4 == 0), ('sub', 'lcs', True), ('lcs', 'iso', ci % 4 == 0)):
+                try:
+                    Y = run_ismags(G, H, mode, sym, None, pre)
+                    err = ''
+                except Exception as exc:      # noqa
+                    Y, err = [], repr(exc)[:200]
+                out.append({'G': G, 'H': H, 'mode': mode, 'sym': sym, 'Y': Y, 'fam': fam + '/after-' + pre, 'err': err})
     return out
 
 
@@ -213,6 +261,8 @@ def run(tier, seed, ev, vd):
     rng = random.Random(seed)
     cases = list(small_scope(tier))
     cases += list(structured(rng, 150 if tier == 'quick' else 4000))
+    rings = list(coloured_rings(rng))
+    cases += [r for r in rings if tier != 'quick' or len(r[1]['nodes']) <= 6]
     parts = common.chunks(cases, tlc.NCPU * 2)
     with mp.Pool(tlc.NCPU) as pool:
         evs = pool.map(_run_events, [(p, seed) for p in parts])
